@@ -1,9 +1,24 @@
 """What MANIFEST.json claims, per property."""
-HOOK_COMMITS = []
+HOOK_COMMITS = ["77b2c42", "6128e10", "5f416f7", "71aa134"]
 NOTES = ("Every check: TLC model-checks the module's design on small constants, then binds it to /repo's current working "
          "tree (rebuilt on every run with -tags verif). Exit 2 = infrastructure problem, never a verdict.")
 NOT_APPLICABLE = {}
 CHECKS = {
+    "C09": {
+        "text": "FzfEditor.tla defines every bindable editing / navigation / selection action, the list update and the renderer's "
+                "cursor-scroll clamp as operators over the state (query, cursor, yank buffer, list cursor, scroll offset, ordered "
+                "selection, limit). TLC model-checks the C09 invariants exhaustively on small constants (cursor in range, cursor "
+                "designates an existing result after render, selection within --multi, toggle involution, -all actions local to "
+                "the current results, kill/yank round trip, selections survive list changes and vanish on reload). The real binary "
+                "is then driven under tmux (POSTed action lists and chains, real key presses) with stimuli simulated by TLC from "
+                "the same module plus seeded random motifs; every transition of the real terminal loop recorded by the hooks "
+                "(action, list update, render, idle) is judged by TLC: post-state must equal Apply(action)(pre-state), and item "
+                "texts must stay equal to the input records.",
+        "design_ref": "DESIGN.md §6 C09",
+        "note": "Trusted: TLC, trace hooks (state projection under the terminal mutex), tmux as terminal. Not modelled: --track, "
+                "jump mode, mouse, multi-line items/--gap (sessions do not use them). Alphabet = FzfChars symbols.",
+        "technique": "TLA+ spec + TLC exhaustive MC; trace validation of real executions (per-transition judge) with TLC-generated stimuli",
+    },
     "C18": {
         "text": "FzfHistory.tla (file as token sequence, Load/Prev/Next/Submit/Quit with the override/modified map) is model-"
                 "checked exhaustively (all behaviours for 8 initial files, limits 1..3, queries {'',a,b,c}, <=3 sessions) for "
